@@ -270,6 +270,56 @@ class FnTaint:
                     best = lb if best is None else max(best, lb)
         return best
 
+    def upper_bounded_at(self, op, bb):
+        """a dominating branch *edge* (not merely a dominating comparison whose both arms rejoin) establishes `value < X` / `value <= X`
+        at block bb, for the operand's own local or a plain copy / widening cast of it.  `if v > MAX { warn!(..) }` does not."""
+        f = self.fn
+        if self.cfg is None:
+            self.cfg = mirg.Cfg(f)
+            self.du = mirg.DefUse(f)
+        l = op_local(op)
+        if l is None:
+            return True
+        same = {l}
+        work = [l]
+        while work:
+            x = work.pop()
+            for _b, k_, p_ in self.du.defs.get(x, []):
+                if k_ == "assign" and p_[2][0] in ("use", "cast"):
+                    for o_ in mirg.rvalue_operands(p_[2]):
+                        ol = op_local(o_)
+                        if ol is not None and ol not in same and o_[0] in ("c", "m") and not pproj(o_[1]):
+                            same.add(ol)
+                            work.append(ol)
+        # forward copies too (the comparison may be made on `v as usize`)
+        for x_, ds_ in self.du.defs.items():
+            for _b, k_, p_ in ds_:
+                if k_ == "assign" and p_[2][0] in ("use", "cast") and any(op_local(o_) in same for o_ in mirg.rvalue_operands(p_[2]) if o_[0] in ("c", "m") and not pproj(o_[1])):
+                    same.add(x_)
+        blocks = f.mir["blocks"]
+        for i, b in enumerate(blocks):
+            t = b["t"]
+            if t["k"] != "switch" or i == bb or not self.cfg.dominates(i, bb):
+                continue
+            dl = op_local(t["d"])
+            for _b, k_, p_ in self.du.defs.get(dl, []) if dl is not None else []:
+                if k_ != "assign" or p_[2][0] != "bin" or p_[2][1] not in ("Lt", "Le", "Gt", "Ge"):
+                    continue
+                a_, b_ = p_[2][2], p_[2][3]
+                opn = p_[2][1]
+                if op_local(b_) in same and op_local(a_) not in same:
+                    a_, b_ = b_, a_
+                    opn = {"Lt": "Gt", "Le": "Ge", "Gt": "Lt", "Ge": "Le"}[opn]
+                if op_local(a_) not in same:
+                    continue
+                false_t = [tg for v_, tg in t["ts"] if v_ == 0]
+                true_t = t.get("o")
+                on_true = true_t is not None and (true_t == bb or self.cfg.dominates(true_t, bb)) and not (false_t and (false_t[0] == bb or self.cfg.dominates(false_t[0], bb)))
+                on_false = bool(false_t) and (false_t[0] == bb or self.cfg.dominates(false_t[0], bb)) and not (true_t is not None and (true_t == bb or self.cfg.dominates(true_t, bb)))
+                if (on_true and opn in ("Lt", "Le")) or (on_false and opn in ("Gt", "Ge")):
+                    return True
+        return False
+
     def sanitised(self, op, bb, strict=False, asserts=True, zero_test=False, lower_ok=True):
         """generous: any dominating ordered comparison on the value / an ancestor / a sibling copy, or a sanitising call in its derivation.
         strict=True: "related value" means sharing an *integer-typed* ancestor (not merely the same struct reference / iterator)"""
